@@ -177,16 +177,7 @@ func (l *c10Logger) StandardLogger(opts *hclog.StandardLoggerOptions) *log.Logge
 }
 func (l *c10Logger) StandardWriter(opts *hclog.StandardLoggerOptions) io.Writer { return io.Discard }
 
-type lockedBuf struct {
-	mu sync.Mutex
-	b  bytes.Buffer
-}
-
-func (w *lockedBuf) Write(p []byte) (int, error) {
-	w.mu.Lock()
-	defer w.mu.Unlock()
-	return w.b.Write(p)
-}
+// lockedBuf is declared in c11.go (Write, Len, snapshot)
 func (w *lockedBuf) bytes() []byte {
 	w.mu.Lock()
 	defer w.mu.Unlock()
